@@ -7,7 +7,7 @@
  R4 cursor provenance (= C08.R4)
 """
 from facts import Undecided, loc, tstr, callee_name, callee_written, subterms, operand_place
-from guards import facts_at, must_pass_through, strip_casts
+from guards import facts_at, must_pass_through, strip_casts, is_min_name
 from effects import rooted_mut_refs, store_path
 from pat import m, Bind, ANY, Call, Bin, Const, Param, SelfField, core, self_path
 import twins
@@ -82,11 +82,11 @@ def classify(v, npath, lterm_pred, is_n=True):
             if m(Const(1), y) and m(Bin("Add", SelfField(*npath), Param(1)), x):
                 return "+n+1"
         for x, y in ((v[2], v[3]), (v[3], v[2])):
-            if self_path(x) == npath and core(y)[0] == "call" and core(y)[1].endswith("cmp::min") and any(core(a)[:2] == ("param", 1) for a in core(y)[2]):
+            if self_path(x) == npath and core(y)[0] == "call" and is_min_name(core(y)[1]) and any(core(a)[:2] == ("param", 1) for a in core(y)[2]):
                 return "clamp+"
     if v[0] == "bin" and v[1] == "Sub" and self_path(v[2]) == npath:
         y = core(v[3])
-        if y[0] == "call" and y[1].endswith("cmp::min") and any(core(a)[:2] == ("param", 1) for a in y[2]):
+        if y[0] == "call" and is_min_name(y[1]) and any(core(a)[:2] == ("param", 1) for a in y[2]):
             return "clamp-"
     return "other(%s)" % tstr(v)[:50]
 
